@@ -86,13 +86,39 @@ import (
 //	         incremental solver, see openNonceValue.)
 //	seq      sequences of operations (Shift, ScalarOp, ReRandomise, CiphertextOp, CiphertextOpInv with
 //	         constants from lists, flavours mixed) applied to Enc(m,r), m, r symbolic; Open of the result
-//	         = the plaintext / nonce computed alongside. Quick: one sequence of three; thorough: one of
+//	         = the plaintext / nonce computed alongside. Quick: one sequence of four; thorough: one of
 //	         five and every sequence of two.
 //
 // BOUNDS. "All" means: decided by the solver for every value of the stated range for the stated key.
-// SK = PK for scalars is NOT decided for all c and all k at once (it is Euler's theorem for the
-// group; the solver times out on the 840 x 2^12 product space): the three slices above replace it,
-// together with the ghost obligation on the exponents that IS for all c and k.
+// SK = PK for scalars is NOT decided for all c and all k at once (the solver times out on the
+// 840 x 2^12 product space): the three slices (A), (B), (C) replace it, together with the ghost
+// obligation on the exponents that IS for all c and k. Slice (B) is limited to 0 <= k < 2^12 and
+// -2^6 < k < 0 (2^20 times out for the two list elements of large order).
+//
+// GROUPS (run with -func; wall times in the README of the delivery report):
+//
+//	quick     H_paillier_decenc, _encflavours, _symmetric, _open, _op, _op_nonce, _scalar_pk,
+//	          _scalar_pkneg, _scalar_a, _scalar_c, _shift, _rerand, _opinv, _seq            (N = 35)
+//	controls  H_paillier_decenc_MUSTFAIL, H_paillier_scalar_MUSTFAIL
+//	thorough  N = 35, longer lists / wider ranges: H_paillier_op_hom, _scalar_hom, _scalar_a_M,
+//	          _scalar_b_M, _scalar_c_M, _scalar_hom_M, _shift_hom, _rerand_hom, _opinv_hom, _seq_M, _seq_T;
+//	          keys (7,5), (11,13), (13,11) (a fork): every H_paillier_*_T.
+//
+// SENSITIVITY (scratch copies of /repo, SSASYM_REPO): the seeded patch C16-paillier-sk-scalarop-
+// truncates-wide-scalars => scalara.sk_eq_pk VIOLATED, confirmed natively (k = 2^11+3, c = 201) and
+// the ghost exponent obligations inconclusive; Decrypt with the wrong CRT constant for q =>
+// decenc.dec_of_enc_is_m VIOLATED; Normalise without the half-range mapping => sym.roundtrip_*
+// VIOLATED; PublicKey.Shift with the representative of -delta => shift.pk_is_c_times_rep_delta and
+// shift.sk_eq_pk VIOLATED; Open with p's exponent replaced by q's => open.nonce VIOLATED (all
+// confirmed natively).
+//
+// OBSERVATION (not a violation of C16): modular.OddPrimeSquareFactors.ModExp and
+// OddPrimeFactors.ModExp reduce the exponent modulo phi(p^2) resp. p-1 and then call
+// ep.Select(coprime, exp, &ep); numct's Nat.Select starts with n.Set(x0), and the receiver aliases
+// x1, so the reduced exponent is overwritten and the FULL exponent is always used (confirmed
+// natively: after phi.Mod(&ep, 1000) with phi = 20, ep.Select(True, exp, &ep) leaves 1000). The
+// value is unaffected; the CRT exponent reduction simply never takes effect. The ghost obligations
+// scalarpk.sk_exponent_* therefore accept |k| or |k| mod phi.
 
 // ---------------------------------------------------------------------------------------------
 // environment contracts
@@ -947,12 +973,12 @@ func verifSeqEnd(e *verifEnv, s *verifSeqState) {
 	verifAssertGhost("seq.model_exact", verifEscaped|verifEscapedInv == 0)
 }
 
-// one sequence of three operations (CiphertextOp, ScalarOp by -2, Shift), flavours alternating
+// one sequence of four operations (Shift, ScalarOp by 3, ReRandomise, CiphertextOp), flavours alternating
 func H_paillier_seq() {
 	e := verifSetup(5, 7)
 	s := verifSeqStart(e)
 	verifReach("seq.inputs")
-	for i, op := range []int{3, 5, 0} {
+	for i, op := range []int{0, 1, 2, 3} {
 		verifStep(e, s, op, i%2 == 0)
 	}
 	verifSeqEnd(e, s)
